@@ -287,6 +287,21 @@ func (p *Prog) lockWrappers() map[string]wrapperSum {
 		fn, _ := typeutil.Callee(info, call).(*types.Func)
 		mode, acq, try, ok := syncOp(fn)
 		if !ok {
+			// recv.guard().Lock(): guard is a method of the same receiver that hands out the receiver's own mutex
+			// (or a lock that does nothing when there is no receiver)
+			if sel, isSel := call.Fun.(*ast.SelectorExpr); isSel {
+				if gc, isCall := ast.Unparen(sel.X).(*ast.CallExpr); isCall && len(gc.Args) == 0 {
+					if gsel, isGSel := ast.Unparen(gc.Fun).(*ast.SelectorExpr); isGSel && objOf(info, gsel.X) == recv {
+						if g := p.staticCallee(fi.Pkg, gc); g != nil {
+							if field, class, isGetter := p.lockGetter(g); isGetter {
+								if m, a, t, named := lockOpByName(sel.Sel.Name); named {
+									w[k] = wrapperSum{Field: field, Class: class, Mode: m, Acq: a, Try: t}
+								}
+							}
+						}
+					}
+				}
+			}
 			continue
 		}
 		sel, ok := call.Fun.(*ast.SelectorExpr)
@@ -1332,4 +1347,92 @@ func translateNet(hs []Held, callee *FuncInfo, c *ast.CallExpr, resultVar string
 		}
 	}
 	return res
+}
+
+func lockOpByName(name string) (mode string, acquire, try, ok bool) {
+	switch name {
+	case "Lock":
+		return "W", true, false, true
+	case "Unlock":
+		return "W", false, false, true
+	case "RLock":
+		return "R", true, false, true
+	case "RUnlock":
+		return "R", false, false, true
+	case "TryLock":
+		return "W", true, true, true
+	case "TryRLock":
+		return "R", true, true, true
+	}
+	return
+}
+
+// lockGetter: a method whose every return hands out the address of one mutex field of its receiver, or - under a
+// test of the receiver for nil - a value of a type of the module whose methods all do nothing.
+func (p *Prog) lockGetter(g *FuncInfo) (field, class string, ok bool) {
+	if g.Decl == nil || g.Decl.Body == nil || g.Decl.Recv == nil || len(g.Decl.Recv.List) != 1 || len(g.Decl.Recv.List[0].Names) != 1 {
+		return "", "", false
+	}
+	info := g.Pkg.TypesInfo
+	recv := info.Defs[g.Decl.Recv.List[0].Names[0]]
+	good, n := true, 0
+	walkNoLit(g.Decl.Body, func(x ast.Node) bool {
+		switch x.(type) {
+		case *ast.ReturnStmt, *ast.IfStmt, *ast.BlockStmt, *ast.BinaryExpr, *ast.Ident, *ast.UnaryExpr, *ast.SelectorExpr, *ast.CompositeLit, *ast.ParenExpr, *ast.BasicLit:
+		case *ast.CallExpr, *ast.AssignStmt, *ast.ExprStmt, *ast.ForStmt, *ast.RangeStmt, *ast.GoStmt, *ast.DeferStmt:
+			good = false
+		}
+		rs, isRet := x.(*ast.ReturnStmt)
+		if !isRet {
+			return true
+		}
+		if len(rs.Results) != 1 {
+			good = false
+			return true
+		}
+		e := ast.Unparen(rs.Results[0])
+		if u, isAddr := e.(*ast.UnaryExpr); isAddr && u.Op == token.AND {
+			if sel, isSel := ast.Unparen(u.X).(*ast.SelectorExpr); isSel && objOf(info, sel.X) == recv {
+				if fv, isVar := info.Uses[sel.Sel].(*types.Var); isVar && isSyncMutex(fv.Type()) {
+					f := sel.Sel.Name
+					if tv, has := info.Types[sel.X]; has {
+						f = canonFieldName(tv.Type, f)
+					}
+					if field != "" && field != f {
+						good = false
+					}
+					field, class = f, mutexClass(info, sel)
+					n++
+					return true
+				}
+			}
+			good = false
+			return true
+		}
+		// a lock that does nothing
+		if tv, has := info.Types[e]; has && p.isNoOpLockType(tv.Type) {
+			return true
+		}
+		good = false
+		return true
+	})
+	return field, class, good && n > 0
+}
+
+// isNoOpLockType: a named type of the module with at least Lock and Unlock, all of whose methods have empty bodies.
+func (p *Prog) isNoOpLockType(t types.Type) bool {
+	nt, ok := t.(*types.Named)
+	if !ok || nt.NumMethods() < 2 {
+		return false
+	}
+	has := map[string]bool{}
+	for i := 0; i < nt.NumMethods(); i++ {
+		m := nt.Method(i)
+		fi := p.Funcs[fkey(m)]
+		if fi == nil || fi.Decl == nil || fi.Decl.Body == nil || len(fi.Decl.Body.List) != 0 {
+			return false
+		}
+		has[m.Name()] = true
+	}
+	return has["Lock"] && has["Unlock"]
 }
